@@ -78,15 +78,16 @@ def strategy(tier):
     from .c09 import nested_site, source_sink_site
 
     mx = 8 if tier == "quick" else 12
-    return st.one_of(
+    return G.with_options(st.one_of(
         G.gcc_problem(max_rows=12, zones=("P1", "P2")),
         source_sink_site(tier),
         nested_site(tier),
+        G.community_problem(),
         G.problem(min_streams=3, max_streams=mx, shape="mixed"),
         G.problem(min_streams=2, max_streams=mx, shape="mixed", multi_zone=True),
         G.problem(max_streams=mx),
         G.problem(min_streams=2, max_streams=mx, shape="mixed", with_utilities=False),
-    )
+    ))
 
 
 PARTS = [Part("service", eval_case, {"quick": 1500, "thorough": 40000}, strategy=strategy, min_nontrivial={"quick": 400, "thorough": 8000})]
